@@ -650,6 +650,12 @@ class PPadToMultiple(Pattern):
     def __repr__(self):
         return ("PPadToMultiple(%s, %s, %s)" % (repr(self.pattern), self.multiple, self.minimum_pad))
 
+    def reset(self):
+        super().reset()
+        self.count = 0
+        self.padcount = 0
+        self.terminated = False
+
     def __next__(self):
         try:
             rv = next(self.pattern)
